@@ -788,6 +788,43 @@ def reseats(f, copy_ins):
     return n >= 4
 
 
+def _bounds(e):
+    """(lower, upper) bound terms of an integer term built from non-negative symbols, sums, positive multiples, i_and(x, -2^k)
+    (rounding down to a multiple: x - (2^k - 1) <= . <= x) and i_lshr(x, k) (0 <= . <= x); None where unknown"""
+    import sympy as sp
+    e = sp.sympify(e)
+    if e.is_number or e.is_Symbol:
+        return e, e
+    fn_ = str(getattr(e, 'func', ''))
+    if fn_ == 'i_and' and len(e.args) == 2 and e.args[1].is_number and e.args[1] < 0 and ((-int(e.args[1])) & (-int(e.args[1]) - 1)) == 0:
+        lo, hi = _bounds(e.args[0])
+        return (None if lo is None else lo - (-int(e.args[1]) - 1)), hi
+    if fn_ == 'i_lshr' and len(e.args) == 2:
+        lo, hi = _bounds(e.args[0])
+        return sp.Integer(0), hi
+    if e.is_Add:
+        bs = [_bounds(a) for a in e.args]
+        return (None if any(b[0] is None for b in bs) else sp.Add(*[b[0] for b in bs])), (None if any(b[1] is None for b in bs) else sp.Add(*[b[1] for b in bs]))
+    if e.is_Mul:
+        c, rest = e.as_coeff_Mul()
+        if c.is_number and c > 0 and rest != 1:
+            lo, hi = _bounds(rest)
+            return (None if lo is None else c * lo), (None if hi is None else c * hi)
+    return None, None
+
+
+def _nonneg(e):
+    """a polynomial in non-negative quantities with non-negative coefficients"""
+    import sympy as sp
+    e = sp.expand(e)
+    if e.is_number:
+        return bool(e >= 0)
+    try:
+        return all(c >= 0 for c in sp.Poly(e, *sorted(e.free_symbols, key=str)).coeffs())
+    except Exception:
+        return False
+
+
 def q3(ctx, fns, m):
     """node-pool index bounds from the decision tree of a_que_new_ / a_que_die_ (fields symbolic, invariant cur_ <= mem_)"""
     import sympy as sp, dwarf
@@ -825,6 +862,7 @@ def q3(ctx, fns, m):
             it = symx.Interp(dom, lambda nm: None)
             lv = it.run(f, args)
             probs = []
+            unks = []
             nacc = 0
             for lf in lv:
                 # pool cells touched: entries/stores whose base is the pool block (*ptr_ or a fresh block)
@@ -840,12 +878,26 @@ def q3(ctx, fns, m):
                     idx = sp.expand(sp.sympify(off) / 8)
                     conds = [c for c in lf.pc if isinstance(c, alg.Cond)]
                     if n == 'a_que_new_':
-                        ok = alg.is_zero(idx - (cur - 1)) and any(c.rel() == '!=' and sp.sympify(c.a) == cur and sp.sympify(c.b) == 0 for c in conds)
-                        if not ok:
-                            probs.append('pool %s at index %s on path %s: expected cur_-1 under cur_ != 0' % (kind, idx, conds))
+                        # any slot below cur_ may be handed out (the property does not fix the order in which spare nodes are reused):
+                        # decided for the last slot and for constant slots, under cur_ != 0
+                        nonempty = any(c.rel() == '!=' and sp.sympify(c.a) == cur and sp.sympify(c.b) == 0 for c in conds)
+                        d_ = sp.expand(idx - (cur - 1))
+                        if alg.is_zero(d_) or idx == 0:
+                            if not nonempty:
+                                probs.append('pool %s at index %s on path %s without the test cur_ != 0' % (kind, idx, conds))
+                        elif d_.is_number and d_ > 0:
+                            probs.append('pool %s at index %s on path %s: beyond the last spare node cur_-1' % (kind, idx, conds))
+                        elif idx.is_number and idx < 0:
+                            probs.append('pool %s at index %s' % (kind, idx))
+                        else:
+                            unks.append('pool %s at index %s: not decided whether it lies below cur_' % (kind, idx))
                     else:
                         if not alg.is_zero(idx - cur):
-                            probs.append('pool %s at index %s, expected cur_' % (kind, idx))
+                            d_ = sp.expand(idx - cur)
+                            if d_.is_number and d_ > 0:
+                                probs.append('pool %s at index %s, beyond the first free slot cur_' % (kind, idx))
+                            else:
+                                unks.append('pool %s at index %s, not at the first free slot cur_' % (kind, idx))
                             continue
                         has_room = any((c.rel() == '>' and sp.sympify(c.a) == mem and sp.sympify(c.b) == cur) or
                                        (c.rel() == '<' and sp.sympify(c.a) == cur and sp.sympify(c.b) == mem) for c in conds)
@@ -853,22 +905,56 @@ def q3(ctx, fns, m):
                         if has_room:
                             continue
                         if grown:
-                            # new capacity = size_up(8, mem + (mem >> 1) + 1) >= mem + 1 > cur (cur <= mem by the invariant)
-                            sizes = [a[1] for cn, a in lf.calls if cn == 'a_alloc']
-                            want = 8 * sp.Function('i_and')(mem + sp.Function('i_lshr')(mem, 1) + 1 + 8 - 1, -8)
-                            if not any(alg.is_zero(sp.sympify(sz) - want) for sz in sizes):
-                                probs.append('pool grown to %s bytes; expected 8*size_up(8, mem_ + mem_/2 + 1)' % sizes)
+                            # whatever the growth policy: the new capacity must exceed the old one (cur_ <= mem_ by the invariant, so the
+                            # slot cur_ exists), the block must hold it, and it must be recorded
                             memk = [k for k, v in names.items() if v == 'mem_'][0]
                             if memk not in lf.store:
                                 probs.append('capacity not updated after growing the pool')
+                                continue
+                            newmem = sp.sympify(lf.store[memk][0])
+                            sizes = [sp.sympify(a[1]) for cn, a in lf.calls if cn == 'a_alloc']
+                            if not any(alg.is_zero(sz - 8 * newmem) for sz in sizes):
+                                probs.append('pool block of %s bytes, recorded capacity %s slots' % (sizes, newmem))
+                            lo_, hi_ = _bounds(newmem)
+                            if lo_ is not None and _nonneg(sp.expand(lo_ - mem - 1)):
+                                pass
+                            elif hi_ is not None and _nonneg(sp.expand(mem - hi_)):
+                                probs.append('pool grown to %s slots, which does not exceed the %s it had: no room for the recycled node' % (newmem, mem))
+                            else:
+                                unks.append('whether the new pool capacity %s exceeds the old one is not decided' % newmem)
                         else:
                             probs.append('pool push at index cur_ without a capacity test on path %s' % conds)
+            if n == 'a_que_new_':
+                # the spare nodes stay a set: the slot whose node is handed out is the last one, or receives the last one; cur_ drops by one
+                import re as _re
+                curk = [k for k, v in names.items() if v == 'cur_'][0]
+                for lf in lv:
+                    r_ = lf.ret
+                    mm = _re.match(r'^\*\*ptr_\[(.*)\]$', r_.base) if isinstance(r_, Ptr) else None
+                    if mm is None:
+                        continue      # a fresh allocation or null
+                    try:
+                        j = sp.expand(sp.sympify(mm.group(1), locals={'cur_': cur}) / 8)
+                    except Exception:
+                        unks.append('returned node %s not understood' % (r_,))
+                        continue
+                    if curk not in lf.store or not alg.is_zero(sp.sympify(lf.store[curk][0]) - (cur - 1)):
+                        probs.append('a spare node is handed out but cur_ becomes %s, expected cur_ - 1' % (lf.store.get(curk, ('cur_',))[0],))
+                    if not alg.is_zero(j - (cur - 1)):
+                        moved = [v for (b, off), v in lf.store.items() if b.startswith('*ptr_') and alg.is_zero(sp.expand(sp.sympify(lf.offs.get((b, off), off)) / 8) - j)]
+                        last = [v for v in moved if isinstance(v[0], Ptr) and _re.match(r'^\*\*ptr_\[(.*)\]$', v[0].base) and
+                                alg.is_zero(sp.expand(sp.sympify(_re.match(r'^\*\*ptr_\[(.*)\]$', v[0].base).group(1), locals={'cur_': cur}) / 8) - (cur - 1))]
+                        if not last:
+                            probs.append('the node of slot %s is handed out but the slot does not receive the last spare node: the pool keeps a node that is enqueued again' % j)
             if nacc == 0:
                 rep.unk('Q3', n, 'no pool access found', loc=loc)
             elif probs:
                 rep.bad('Q3', n, '; '.join(sorted(set(probs))[:2])[:500], loc=loc, key='%s: pool bounds' % n)
+            elif unks:
+                rep.unk('Q3', n, '; '.join(sorted(set(unks))[:2])[:300], loc=loc)
             else:
-                rep.ok('Q3', n, '%d pool accesses: pop at cur_-1 under cur_ != 0; push at cur_ under cur_ < mem_ or after growing to size_up(8, mem_ + mem_/2 + 1) > cur_' % nacc, loc=loc)
+                rep.ok('Q3', n, '%d pool accesses: a spare node is taken from below cur_ under cur_ != 0; a recycled one is stored at cur_ under cur_ < mem_ or after '
+                       'growing the pool to a recorded capacity > mem_ that the block holds' % nacc, loc=loc)
         except Unsupported as e:
             rep.unk('Q3', n, str(e), loc=loc)
 
